@@ -781,9 +781,9 @@ class Interp:
         raise self.unanalysable("rvalue %r" % (rv.get("text", k),))
 
     # ---------------- control ----------------
-    def call(self, key, args):
+    def call(self, key, args, nostub=False):
         """Interpret local body `key` with argument values."""
-        stub = self.stubs.get(key)
+        stub = None if nostub else self.stubs.get(key)
         if stub is not None:
             return stub(self, key, args)
         body = self.prog.bodies.get(key)
